@@ -24,6 +24,8 @@ def modelEnv (fs : FS) : Env where
   hasSrcPrefix p s := some (PP.hasSrcPrefix p s)
   isRootedIn root parts := some (PP.isRootedIn fs root parts)
   Call_updateLocations c goroot lg gomods gopaths := some (c.updateLocations goroot lg gomods gopaths)
+  Stack_updateLocations s goroot lg gomods gopaths := some (s.updateLocations goroot lg gomods gopaths)
+  Signature_updateLocations s goroot lg gomods gopaths := some (s.updateLocations goroot lg gomods gopaths)
 
 variable (fs : FS)
 
@@ -467,7 +469,71 @@ theorem tie_Call_updateLocations (c : Call) (goroot lg : Bytes) (gomods gopaths 
         simp only [after_cont]
         cases hq : c.gomodLoop gomods (sortedByLen gomods) <;> simp
 
+/-! ### (*Stack).updateLocations, (*Signature).updateLocations -/
+
+theorem getElem?_append_cons_self {α : Type} (done rest : List α) (v : α) :
+    (done ++ v :: rest)[done.length]? = some v := by simp
+
+theorem set_append_cons_self {α : Type} (done rest : List α) (v w : α) :
+    (done ++ v :: rest).set done.length w = done ++ w :: rest := by simp
+
+theorem loop_Stack_upd (s0 : Stack) (goroot lg : Bytes) (gomods gopaths : AMap) (e : Bool) :
+    ∀ (xs : List Call) (pre : List Call) (r : Bool) (ys : List Call),
+    forRange (Stack_updateLocations_loop1 (modelEnv fs) s0 goroot lg gomods gopaths) ys pre.length
+      (({ calls := pre ++ xs, elided := e } : Stack), r) =
+    if ys.length = xs.length then
+      some (Step.cont (({ calls := pre ++ xs.map (fun c => (c.updateLocations goroot lg gomods gopaths).1), elided := e } : Stack),
+        (xs.map (fun c => (c.updateLocations goroot lg gomods gopaths).2)).all id && r))
+    else forRange (Stack_updateLocations_loop1 (modelEnv fs) s0 goroot lg gomods gopaths) ys pre.length
+      (({ calls := pre ++ xs, elided := e } : Stack), r)
+  | [], pre, r, [] => by simp
+  | [], pre, r, _ :: _ => by simp
+  | x :: xs, pre, r, [] => by simp
+  | x :: xs, pre, r, y :: ys => by
+    have hm : (modelEnv fs).Call_updateLocations x goroot lg gomods gopaths =
+        some (x.updateLocations goroot lg gomods gopaths) := rfl
+    by_cases hl : ys.length = xs.length
+    · have ih := loop_Stack_upd s0 goroot lg gomods gopaths e xs (pre ++ [(x.updateLocations goroot lg gomods gopaths).1])
+        ((x.updateLocations goroot lg gomods gopaths).2 && r) ys
+      simp only [hl, if_true, List.length_append, List.length_cons, List.length_nil, List.append_assoc,
+        List.singleton_append] at ih
+      rw [forRange_cons]
+      simp only [Stack_updateLocations_loop1, getElem?_append_cons_self, Option.bind_some, hm, set_append_cons_self,
+        List.length_cons, hl, if_true, ih, List.map_cons, List.all_cons, id]
+      congr 3
+      cases (x.updateLocations goroot lg gomods gopaths).2 <;> cases r <;> simp
+    · simp [hl]
+
+theorem tie_Stack_updateLocations (s : Stack) (goroot lg : Bytes) (gomods gopaths : AMap) :
+    Stack_updateLocations (modelEnv fs) s goroot lg gomods gopaths =
+      (modelEnv fs).Stack_updateLocations s goroot lg gomods gopaths := by
+  have hm : (modelEnv fs).Stack_updateLocations s goroot lg gomods gopaths =
+      some (s.updateLocations goroot lg gomods gopaths) := rfl
+  rw [hm]
+  have := loop_Stack_upd fs s goroot lg gomods gopaths s.elided s.calls [] true s.calls
+  simp only [List.length_nil, List.nil_append, if_true] at this
+  have hs : ({ calls := s.calls, elided := s.elided } : Stack) = s := rfl
+  rw [hs] at this
+  simp only [Stack_updateLocations, this, after_cont, Stack.updateLocations, List.map_map, Bool.and_true,
+    Option.some.injEq, Prod.mk.injEq]
+  constructor
+  · rfl
+  · simp [List.all_map, Function.comp_def]
+
+theorem tie_Signature_updateLocations (s : Signature) (goroot lg : Bytes) (gomods gopaths : AMap) :
+    Signature_updateLocations (modelEnv fs) s goroot lg gomods gopaths =
+      (modelEnv fs).Signature_updateLocations s goroot lg gomods gopaths := by
+  have h1 : ∀ st : Stack, (modelEnv fs).Stack_updateLocations st goroot lg gomods gopaths =
+      some (st.updateLocations goroot lg gomods gopaths) := fun _ => rfl
+  have hm : (modelEnv fs).Signature_updateLocations s goroot lg gomods gopaths =
+      some (s.updateLocations goroot lg gomods gopaths) := rfl
+  rw [hm]
+  simp only [Signature_updateLocations, h1, Option.bind_some, Signature.updateLocations]
+
 end PP.TrS
+
+#print axioms PP.TrS.tie_Stack_updateLocations
+#print axioms PP.TrS.tie_Signature_updateLocations
 
 #print axioms PP.TrS.tie_Call_updateLocations
 
